@@ -207,7 +207,7 @@ def Reach : (s : Shape) → St s → List Call → Prop
   | .tbt, st, evs => LeafReach .tbt st evs
   | .etod c, (_, inner), evs => Reach c inner (evs.map (degradeCall (caps c)))
   | .deco c, st, evs => Reach c st evs
-  | .ffbox _ _ c, (_, inner), evs => Reach c inner evs
+  | .fsink l b f, st, evs => LeafReach (.fsink l b f) st evs
   | .tagger _ _ c, st, evs => Reach c st evs
   | .tfr c, (_, inner), evs => Reach c inner (tfrView evs)
   | .multi cs, (_, inner), evs => ReachL cs inner evs
@@ -248,6 +248,8 @@ theorem reach_steps : ∀ (s : Shape), s.noStream = true → ∀ (cs : List Call
       simp only [Reach] at h ⊢; exact leafReach_steps _ st e cs h
   | .tt ff, _ => fun cs st e h => by
       simp only [Reach] at h ⊢; exact leafReach_steps _ st e cs h
+  | .fsink l b f, _ => fun cs st e h => by
+      simp only [Reach] at h ⊢; exact leafReach_steps _ st e cs h
   | .text ff, _ => fun cs st e h => by
       simp only [Reach] at h ⊢; exact leafReach_steps _ st e cs h
   | .tbt, _ => fun cs st e h => by
@@ -278,11 +280,6 @@ theorem reach_steps : ∀ (s : Shape), s.noStream = true → ∀ (cs : List Call
       have hc := reach_steps ch (by simpa [Shape.noStream] using hn) [c] st e (by simpa [Reach] using h)
       simp only [Reach] at h ⊢
       cases c <;> first | simpa [step] using hc | simpa [step] using h)
-  | .ffbox l b ch, hn => lift _ (fun st e c h => by
-      obtain ⟨f, inner⟩ := st
-      have hc := reach_steps ch (by simpa [Shape.noStream] using hn) [c] inner e (by simpa [Reach] using h)
-      simp only [Reach] at h ⊢
-      cases c <;> first | simpa [step] using hc | simpa [step] using h)
   | .tagger n g ch, hn => lift _ (fun st e c h => by
       have hn' : ch.noStream = true := by simpa [Shape.noStream] using hn
       have hc := reach_steps ch hn' [c] st e (by simpa [Reach] using h)
@@ -292,7 +289,6 @@ theorem reach_steps : ∀ (s : Shape), s.noStream = true → ∀ (cs : List Call
         have := reach_steps ch hn' [.startTest t, .tags n g] st e h
         simpa [step] using this
       | done => simpa [step] using h
-      | setFailfast b => simpa [step] using h
       | _ => simpa [step] using hc)
   | .multi ss, hn => lift _ (fun st e c h => by
       obtain ⟨own, inner⟩ := st
@@ -315,6 +311,7 @@ end
 mutual
 theorem reach_init : ∀ (s : Shape), s.noStream = true → Reach s (init s) []
   | .sink f, _ => ⟨[], rfl, rfl⟩
+  | .fsink _ _ _, _ => ⟨[], rfl, rfl⟩
   | .tt ff, _ => ⟨[], rfl, rfl⟩
   | .text ff, _ => ⟨[], rfl, rfl⟩
   | .tbt, _ => ⟨[], rfl, rfl⟩
@@ -323,8 +320,6 @@ theorem reach_init : ∀ (s : Shape), s.noStream = true → Reach s (init s) []
   | .tfr ch, hn => by
       simp only [Reach, init]; exact reach_init ch (by simpa [Shape.noStream] using hn)
   | .deco ch, hn => by
-      simp only [Reach, init]; exact reach_init ch (by simpa [Shape.noStream] using hn)
-  | .ffbox _ _ ch, hn => by
       simp only [Reach, init]; exact reach_init ch (by simpa [Shape.noStream] using hn)
   | .tagger _ _ ch, hn => by
       simp only [Reach, init]; exact reach_init ch (by simpa [Shape.noStream] using hn)
@@ -392,7 +387,7 @@ def expectV : Shape → List Call → List (List Call)
   | .tbt, evs => [evs]
   | .etod c, evs => expectV c (evs.map (degradeCall (caps c)))
   | .deco c, evs => expectV c evs
-  | .ffbox _ _ c, evs => expectV c evs
+  | .fsink _ _ _, evs => [evs]
   | .tagger _ _ c, evs => expectV c evs
   | .tfr c, evs => expectV c (tfrView evs)
   | .e2s c, evs => expectV c evs
@@ -406,6 +401,11 @@ mutual
 theorem reach_tlogs : ∀ (s : Shape), s.noStream = true → ∀ (st : St s) (evs : List Call),
     Reach s st evs → (leaves s st).map tlog = expectV s evs
   | .sink f, _, st, evs, ⟨cs, h1, h2⟩ => by
+      subst h1
+      simp only [leaves, expectV, List.map, tlog, LeafSt.log, run, step]
+      rw [foldl_log (sinkStep f) (fun s => s.log.map (·.call)) (sinkStep_log f)]
+      simp [init, h2]
+  | .fsink l b f, _, st, evs, ⟨cs, h1, h2⟩ => by
       subst h1
       simp only [leaves, expectV, List.map, tlog, LeafSt.log, run, step]
       rw [foldl_log (sinkStep f) (fun s => s.log.map (·.call)) (sinkStep_log f)]
@@ -431,8 +431,6 @@ theorem reach_tlogs : ∀ (s : Shape), s.noStream = true → ∀ (st : St s) (ev
       simp only [leaves, expectV]; exact reach_tlogs ch (by simpa [Shape.noStream] using hn) inner _ h
   | .deco ch, hn, st, evs, h => by
       simp only [leaves, expectV]; exact reach_tlogs ch (by simpa [Shape.noStream] using hn) st _ h
-  | .ffbox _ _ ch, hn, (_, inner), evs, h => by
-      simp only [leaves, expectV]; exact reach_tlogs ch (by simpa [Shape.noStream] using hn) inner _ h
   | .tagger _ _ ch, hn, st, evs, h => by
       simp only [leaves, expectV]; exact reach_tlogs ch (by simpa [Shape.noStream] using hn) st _ h
   | .multi ss, hn, (own, inner), evs, h => by
@@ -483,6 +481,7 @@ mutual
 theorem expectV_eq : ∀ (s : Shape) (evs : List Call), (tfrView evs = evs ∨ s.hasTfr = false) →
     expectV s evs = expect s evs
   | .sink _, _, _ => rfl
+  | .fsink _ _ _, _, _ => rfl
   | .tt _, _, _ => rfl
   | .text _, _, _ => rfl
   | .tbt, _, _ => rfl
@@ -491,8 +490,6 @@ theorem expectV_eq : ∀ (s : Shape) (evs : List Call), (tfrView evs = evs ∨ s
       refine expectV_eq c _ (h.imp (fun h => ?_) (fun h => by simpa [Shape.hasTfr] using h))
       rw [tfrView_map, h]
   | .deco c, evs, h => by
-      simp only [expectV, expect]; exact expectV_eq c _ (h.imp id (fun h => by simpa [Shape.hasTfr] using h))
-  | .ffbox _ _ c, evs, h => by
       simp only [expectV, expect]; exact expectV_eq c _ (h.imp id (fun h => by simpa [Shape.hasTfr] using h))
   | .tagger _ _ c, evs, h => by
       simp only [expectV, expect]; exact expectV_eq c _ (h.imp id (fun h => by simpa [Shape.hasTfr] using h))
@@ -617,12 +614,12 @@ theorem expect_rel (Q : List Call → List Call → Prop) (hrefl : ∀ evs, Q ev
     (hstep : ∀ c l evs, Q l (evs.map (degradeCall c)) → Q l evs) :
     ∀ (s : Shape) (evs : List Call), ∀ l ∈ expect s evs, Q l evs
   | .sink _, evs, l, h => by simp only [expect, List.mem_singleton] at h; subst h; exact hrefl _
+  | .fsink _ _ _, evs, l, h => by simp only [expect, List.mem_singleton] at h; subst h; exact hrefl _
   | .tt _, evs, l, h => by simp only [expect, List.mem_singleton] at h; subst h; exact hrefl _
   | .text _, evs, l, h => by simp only [expect, List.mem_singleton] at h; subst h; exact hrefl _
   | .tbt, evs, l, h => by simp only [expect, List.mem_singleton] at h; subst h; exact hrefl _
   | .etod c, evs, l, h => hstep _ _ _ (expect_rel Q hrefl hstep c _ l (by simpa [expect] using h))
   | .deco c, evs, l, h => expect_rel Q hrefl hstep c _ l (by simpa [expect] using h)
-  | .ffbox _ _ c, evs, l, h => expect_rel Q hrefl hstep c _ l (by simpa [expect] using h)
   | .tagger _ _ c, evs, l, h => expect_rel Q hrefl hstep c _ l (by simpa [expect] using h)
   | .tfr c, evs, l, h => expect_rel Q hrefl hstep c _ l (by simpa [expect] using h)
   | .e2s c, evs, l, h => expect_rel Q hrefl hstep c _ l (by simpa [expect] using h)
@@ -817,6 +814,7 @@ theorem reach_tbt : ∀ (s : Shape), s.noStream = true → ∀ (st : St s) (evs 
     Reach s st evs → (s.hasTbt = true → evs.all fineCall = true) →
     zip3All tbtOk ((leaves s st).map observe) (isTbtLeaf s) (expectV s evs) = true
   | .sink f, _, st, evs, _, _ => by simp [leaves, isTbtLeaf, expectV, zip3All, tbtOk, observe, LeafSt.calls]
+  | .fsink _ _ f, _, st, evs, _, _ => by simp [leaves, isTbtLeaf, expectV, zip3All, tbtOk, observe, LeafSt.calls]
   | .tt ff, _, st, evs, _, _ => by simp [leaves, isTbtLeaf, expectV, zip3All, tbtOk, observe, LeafSt.calls]
   | .text ff, _, st, evs, _, _ => by simp [leaves, isTbtLeaf, expectV, zip3All, tbtOk, observe, LeafSt.calls]
   | .tbt, _, st, evs, ⟨cs, h1, h2⟩, hf => by
@@ -838,9 +836,6 @@ theorem reach_tbt : ∀ (s : Shape), s.noStream = true → ∀ (st : St s) (evs 
   | .deco ch, hn, st, evs, h, hf => by
       simp only [leaves, isTbtLeaf, expectV]
       exact reach_tbt ch (by simpa [Shape.noStream] using hn) st _ h (fun ht => hf (by simpa [Shape.hasTbt] using ht))
-  | .ffbox _ _ ch, hn, (_, inner), evs, h, hf => by
-      simp only [leaves, isTbtLeaf, expectV]
-      exact reach_tbt ch (by simpa [Shape.noStream] using hn) inner _ h (fun ht => hf (by simpa [Shape.hasTbt] using ht))
   | .tagger _ _ ch, hn, st, evs, h, hf => by
       simp only [leaves, isTbtLeaf, expectV]
       exact reach_tbt ch (by simpa [Shape.noStream] using hn) st _ h (fun ht => hf (by simpa [Shape.hasTbt] using ht))
